@@ -323,6 +323,54 @@ func (m *DB) Step(op *cs.Op, out *cs.Outcome) string {
 			return s
 		}
 		return sameSet("ListIndexes", out.Names, c.IndexNames())
+	case "export":
+		var conds []string
+		if coll(op.Coll) == nil {
+			conds = append(conds, "ErrCollectionNotExist")
+		}
+		if op.Note == "badpath" {
+			conds = append(conds, "any")
+		}
+		return errMatches(out.Err, conds)
+	case "import":
+		// op.Docs carries the documents the file holds (JSON-typed); Note = "badfile" for an
+		// unreadable or ill-formed file
+		var conds []string
+		if coll(op.Coll) != nil {
+			conds = append(conds, "any")
+		}
+		if op.Note == "badfile" {
+			conds = append(conds, "any")
+		} else {
+			seen := map[string]bool{}
+			for _, d := range op.Docs {
+				id, _ := d["_id"].(string)
+				if needsId(d) {
+					m.NeedResync = true // generated ids: read the result back
+					continue
+				}
+				if !DocValid(d) || seen[id] {
+					conds = append(conds, "any")
+					break
+				}
+				seen[id] = true
+			}
+		}
+		if s := errMatches(out.Err, conds); s != "" || len(conds) > 0 {
+			m.NeedResync = false
+			return s
+		}
+		nc := &Coll{Docs: map[string]cs.Doc{}, Indexes: map[string]bool{}}
+		for _, d := range op.Docs {
+			if id, ok := d["_id"].(string); ok && id != "" {
+				nc.Docs[id] = cs.CloneDoc(d)
+			}
+		}
+		m.Colls[op.Coll] = nc
+		// the imported values are JSON-typed: the caller compares them with op.Docs up to numeric
+		// kind and then takes the stored documents as the new model state
+		m.NeedResync = true
+		return ""
 	case "createbyquery":
 		var conds []string
 		if coll(op.Coll) != nil {
